@@ -239,6 +239,13 @@ struct Lower
         if(V.isSigned() && V.isMinSignedValue() && V.getBitWidth() == 64) return "((" + ctype(T) + ")(-9223372036854775807LL-1))";
         return "((" + ctype(T) + ")" + v + suf + ")";
     }
+    std::string floatLit(const llvm::APFloat& F, QualType T)
+    {
+        if(F.isNaN()) return "((" + ctype(T) + ")__builtin_nan(\"\"))";
+        if(F.isInfinity()) return std::string("((") + ctype(T) + ")" + (F.isNegative() ? "(-__builtin_inf())" : "__builtin_inf()") + ")";
+        llvm::SmallString<32> s; F.toString(s, 0, 0);
+        return "((" + ctype(T) + ")" + std::string(s.str()) + ")";
+    }
     // address of a glvalue expression
     std::string addr(const Expr* E) { return "(&" + lv(E) + ")"; }
 
@@ -334,7 +341,7 @@ struct Lower
     std::string apInit(const APValue& V, QualType T)
     {
         if(V.isInt()) return lit(V.getInt(), T);
-        if(V.isFloat()) { llvm::SmallString<32> s; V.getFloat().toString(s, 0, 0); std::string v(s.str()); if(v == "NaN") v = "__builtin_nan(\"\")"; if(v == "+Inf") v = "__builtin_inf()"; if(v == "-Inf") v = "(-__builtin_inf())"; return "((" + ctype(T) + ")" + v + ")"; }
+        if(V.isFloat()) return floatLit(V.getFloat(), T);
         if(V.isStruct())
         {
             auto* RD = T->getAsCXXRecordDecl(); if(!RD) die("apvalue struct type");
@@ -511,7 +518,7 @@ struct Lower
             if(CE->getNumArgs() == 0 && CE->EvaluateAsRValue(R, C) && !R.HasSideEffects)
             {
                 if(R.Val.isInt()) return lit(R.Val.getInt(), CE->getType());
-                if(R.Val.isFloat()) { llvm::SmallString<32> s; R.Val.getFloat().toString(s, 0, 0); std::string v(s.str()); if(v == "NaN") v = "__builtin_nan(\"\")"; return "((" + ctype(CE->getType()) + ")" + v + ")"; }
+                if(R.Val.isFloat()) return floatLit(R.Val.getFloat(), CE->getType());
             }
         }
         need(FD);
@@ -553,7 +560,7 @@ struct Lower
         if(auto* CL = dyn_cast<CharacterLiteral>(E)) return "((" + ctype(CL->getType()) + ")" + std::to_string(CL->getValue()) + ")";
         if(auto* BL = dyn_cast<CXXBoolLiteralExpr>(E)) return BL->getValue() ? "((_Bool)1)" : "((_Bool)0)";
         if(isa<CXXNullPtrLiteralExpr>(E) || isa<GNUNullExpr>(E)) return "((void *)0)";
-        if(auto* FL = dyn_cast<FloatingLiteral>(E)) { llvm::SmallString<32> s; FL->getValue().toString(s, 0, 0); return "((" + ctype(FL->getType()) + ")" + std::string(s.str()) + ")"; }
+        if(auto* FL = dyn_cast<FloatingLiteral>(E)) return floatLit(FL->getValue(), FL->getType());
         if(isa<CXXThisExpr>(E)) return curLambdaThisField.empty() ? "self" : "((*self)." + curLambdaThisField + ")";
         if(auto* U = dyn_cast<UnaryExprOrTypeTraitExpr>(E))
         {
